@@ -82,7 +82,7 @@ fn ob_oneshot_send() {
       assert!(wakes(0) == 0);
     }
   }
-  kani::cover!(true);
+  kani::cover!(true, "END");
 }
 
 // @obligation id=oneshot.try_recv props=C01,C04 kind=full tier=quick bound="all 5 states x receiver_dropped x sender_count<=2 x slot; payload any u8"
@@ -120,7 +120,7 @@ fn ob_oneshot_try_recv() {
   // a second receive never yields a value
   let again = s.try_recv();
   assert!(again.is_err() || false);
-  kani::cover!(true);
+  kani::cover!(true, "END");
 }
 
 // @obligation id=oneshot.decrement_senders props=C04,C09 kind=full tier=quick bound="all states, sender_count 1..=2"
@@ -161,7 +161,7 @@ fn ob_oneshot_decrement_senders() {
   let c_last_orphan = sc == 1 && st == STATE_SENT && rd;
   kani::cover!(c_last_empty);
   kani::cover!(c_last_orphan);
-  kani::cover!(true);
+  kani::cover!(true, "END");
 }
 
 // @obligation id=oneshot.mark_receiver_dropped props=C04 kind=full tier=quick bound="all states"
@@ -186,7 +186,7 @@ fn ob_oneshot_mark_receiver_dropped() {
   }
   kani::cover!(st == STATE_EMPTY);
   kani::cover!(st == STATE_SENT);
-  kani::cover!(true);
+  kani::cover!(true, "END");
 }
 
 // @obligation id=oneshot.poll_recv props=C06 kind=full tier=quick bound="all states x sender_count<=2; one poll with a counting waker, then the enabling operation"
@@ -225,7 +225,7 @@ fn ob_oneshot_poll_recv() {
     }
   }
   assert!(s.wf());
-  kani::cover!(true);
+  kani::cover!(true, "END");
 }
 
 // ---- C09: the value is dropped exactly once for every teardown order ------------
@@ -269,5 +269,5 @@ fn ob_oneshot_drop_once() {
   kani::cover!(op == 1 && had);
   kani::cover!(op == 2 && had && sc == 1);
   kani::cover!(op == 3 && had);
-  kani::cover!(true);
+  kani::cover!(true, "END");
 }
